@@ -129,21 +129,30 @@ def oracle(chk, lay, mbins, ifm):
         if l2.size and not (np.all(u2 > l2) and np.all(u2[:-1] <= l2[1:] * (1 + 1e-15))):
             chk.fail("remnant bins are increasing and non-overlapping", lay, dict(cls=cls, bins=pairs_of(getattr(b, cls))),
                      wd_edge_at_wd_max=bool(cls == "WD" and np.any(lo == ifm.WD_mf.upper)))
-    if np.atleast_1d(b.BH.lower)[0] != ifm.BH_mf.lower:
+    if np.atleast_1d(b.BH.lower).size and np.atleast_1d(b.BH.lower)[0] != ifm.BH_mf.lower:
         chk.fail("BH bins start at the minimum BH mass", lay, dict(first=float(np.atleast_1d(b.BH.lower)[0]), want=float(ifm.BH_mf.lower)))
-    if np.atleast_1d(b.WD.upper)[-1] != ifm.WD_mf.upper:
+    if np.atleast_1d(b.WD.upper).size == 0:
+        chk.count("layout starting above the heaviest WD: no WD bins")
+    elif np.atleast_1d(b.WD.upper)[-1] != ifm.WD_mf.upper:
         chk.fail("WD bins end at the maximum WD mass", lay, dict(last=float(np.atleast_1d(b.WD.upper)[-1]), want=float(ifm.WD_mf.upper)))
     nsm = ifm.NS_mf.lower
     nl, nu = np.atleast_1d(b.NS.lower), np.atleast_1d(b.NS.upper)
     ncont = int(np.sum((nl <= nsm) & (nsm < nu)))
-    if ncont != 1 or nl.size != 1:
+    covers_ns = breaks[0] < nsm < breaks[-1] or isinstance(lay["nbins"], dict)
+    if not covers_ns:
+        chk.count("layout not covering the NS mass: NS clauses not applicable")
+    elif ncont != 1 or nl.size != 1:
         chk.fail("exactly one NS bin contains the NS mass", lay, dict(bins=pairs_of(b.NS)),
                  edge_at_ns_mass=bool(np.any(edges == 1.4)))
     # the NS bin must be usable by the lookup (array-valued)
     try:
+        if not covers_ns:
+            raise StopIteration
         ind = mbins.determine_index(nsm, "NS")
         if ind != 0:
             chk.fail("lookup of the NS mass returns the NS bin", lay, dict(ind=int(ind)))
+    except StopIteration:
+        pass
     except Exception as e:  # noqa
         chk.fail("lookup of the NS mass returns the NS bin", lay, dict(error=type(e).__name__),
                  ns_scalar=bool(np.ndim(b.NS.lower) == 0), edge_at_ns_mass=bool(np.any(edges == 1.4)))
@@ -238,6 +247,8 @@ def run(chk):
     for lay, (mbins, ifm) in list(zip(lays, objs))[: (150 if chk.tier == "quick" else 1500)]:
         cls = rng.choice(["MS", "MS", "WD", "BH"])
         bp = pairs_of(getattr(mbins.bins, cls))
+        if not bp:
+            continue
         ed = [p[0] for p in bp] + [bp[-1][1]]
         for _ in range(6):
             x = rng.choice(ed)
